@@ -7,14 +7,6 @@ Import ListNotations.
 Open Scope Z_scope.
 
 (* ---------------------------------------------------------------- from lists to core_at *)
-Lemma cassoc_Some_In : forall (cs : list (chip * chip_st)) k c, cassoc k cs = Some c -> In (k, c) cs.
-Proof.
-  induction cs as [|[k' c'] cs IH]; intros k c H; [discriminate|]. cbn [cassoc] in H.
-  destruct (chip_eqb k k') eqn:E.
-  - apply chip_eqb_eq in E. subst k'. inversion H; subst. left. reflexivity.
-  - right. apply IH. exact H.
-Qed.
-
 Lemma core_at_In : forall m c s, core_at m c = Some s ->
   exists xy ch, In (xy, ch) (m_chips m) /\ In s (ch_cores ch).
 Proof.
@@ -51,8 +43,10 @@ Definition core_wfb (s : core_st) : bool :=
 
 Definition machine_wfb (m : machine) : bool :=
   nodupb chip_eqb (map fst (m_chips m)) && all_coresb core_wfb m
-  && ((m_vcpu m + VCPU_SIZE * N_CORES <=? SV_BASE) || (SV_BASE + 256 <=? m_vcpu m))
-  && (0 <=? m_vcpu m) && (m_vcpu m <? 2 ^ 32) && (0 <=? m_base m) && (m_base m <? 2 ^ 32)
+  && forallb (fun xy => (m_vcpu m xy + VCPU_SIZE * N_CORES <=? SV_BASE) || (SV_BASE + 256 <=? m_vcpu m xy))
+             (map fst (m_chips m))
+  && forallb (fun xy => (0 <=? m_vcpu m xy) && (m_vcpu m xy <? 2 ^ 32)) (map fst (m_chips m))
+  && true && (0 <=? m_base m) && (m_base m <? 2 ^ 32)
   && (4 <=? m_buffer m) && (m_buffer m <=? 1024) && (m_buffer m mod 4 =? 0).
 
 Lemma machine_wfb_spec : forall m, machine_wfb m = true -> machine_wf m.
@@ -68,8 +62,10 @@ Proof.
   - intros c s Hat. pose proof (all_coresb_spec _ _ Hb c s Hat) as Hs. unfold core_wfb in Hs.
     apply andb_prop in Hs. destruct Hs as [Hs H4]. apply andb_prop in Hs. destruct Hs as [Hs H3].
     apply andb_prop in Hs. destruct Hs as [H1 H2]. unfold core_wf. lia.
-  - apply orb_prop in Hc. change (2 ^ 32) with 4294967296 in *.
-    split; [destruct Hc as [Hc|Hc]; [left|right]; lia|]. repeat split; lia.
+  - change (2 ^ 32) with 4294967296 in *. rewrite forallb_forall in Hc, Hd.
+    split; [intros xy Hin; specialize (Hc xy Hin); apply orb_prop in Hc; destruct Hc as [Hc|Hc]; [left|right]; lia|].
+    split; [intros xy Hin; specialize (Hd xy Hin); apply andb_prop in Hd; destruct Hd; lia|].
+    repeat split; lia.
 Qed.
 
 Definition binary_okb (buffer : Z) (data : list Z) : bool :=
@@ -132,7 +128,7 @@ Definition idle_chip : chip_st := mkChip (repeat idle_core 18) None.
 (* two chips; core (0, 0, 1) still waits under app id 30 from an earlier load; chip (1, 0) will miss the
    next flood fill *)
 Definition k3_machine : machine :=
-  mkMachine 16 1612972032 3842011136
+  mkMachine 16 1612972032 (fun _ => 3842011136)
             [((0, 0), mkChip (idle_core :: mkCore STATE_WAIT 30 ex_bin0 :: repeat idle_core 16) None);
              ((1, 0), idle_chip)]
             [[(1, 0)]] [].
@@ -174,7 +170,7 @@ Qed.
 (* the requested core (1, 0, 3) itself still waits (binary 0) and its chip misses every fill: the
    per-core check takes the old `wait` for the new load, in both modes *)
 Definition stale_machine : machine :=
-  mkMachine 16 1612972032 3842011136
+  mkMachine 16 1612972032 (fun _ => 3842011136)
             [((0, 0), idle_chip);
              ((1, 0), mkChip (repeat idle_core 3 ++ mkCore STATE_WAIT 30 ex_bin0 :: repeat idle_core 14) None)]
             [[(1, 0)]; [(1, 0)]; [(1, 0)]; [(1, 0)]] [].
@@ -208,7 +204,7 @@ Qed.
 (* ---------------------------------------------------------------- satisfiable hypotheses *)
 (* a fresh machine, chip (1, 0) misses the first fill: count mode retries once and loads both cores *)
 Definition fresh_machine : machine :=
-  mkMachine 16 1612972032 3842011136 [((0, 0), idle_chip); ((1, 0), idle_chip)] [[(1, 0)]] [].
+  mkMachine 16 1612972032 (fun _ => 3842011136) [((0, 0), idle_chip); ((1, 0), idle_chip)] [[(1, 0)]] [].
 
 Lemma fresh_example :
   machine_wf fresh_machine /\ ctrl_wf ctrl_init fresh_machine /\ map_wf k3_map
@@ -233,7 +229,7 @@ Qed.
 
 (* chip (1, 0) misses every fill: after n_tries + 1 = 3 attempts the error names exactly core (1, 0, 3) *)
 Definition deaf_machine : machine :=
-  mkMachine 16 1612972032 3842011136 [((0, 0), idle_chip); ((1, 0), idle_chip)]
+  mkMachine 16 1612972032 (fun _ => 3842011136) [((0, 0), idle_chip); ((1, 0), idle_chip)]
             [[(1, 0)]; [(1, 0)]; [(1, 0)]; [(1, 0)]] [].
 
 Lemma deaf_example :
@@ -252,7 +248,7 @@ Qed.
 Lemma fresh_answers : machine_answers fresh_machine /\ map_present ex_bins fresh_machine k3_map.
 Proof.
   split.
-  - split; [discriminate|]. split; [vm_compute; congruence|].
+  - split; [discriminate|]. split; [intros xy _; vm_compute; congruence|].
     apply (all_coresb_spec (fun s => is_member (cs_state s) AppState_members)). vm_compute. reflexivity.
   - split.
     + intros b [<-|[]]. exists ex_bin1. split; [reflexivity|vm_compute; congruence].
